@@ -334,3 +334,52 @@ func File(t *rapid.T) (string, map[string]bool) {
 	}
 	return text, g.Classes
 }
+
+// LiteralStatement draws a single assignment, tag or qualifier carrying one string
+// or regex literal over the full escapable alphabet.
+func LiteralStatement(t *rapid.T) string {
+	lit := ""
+	if rapid.Bool().Draw(t, "isregex") {
+		lit = regexLit(t)
+	} else {
+		n := rapid.IntRange(0, 20).Draw(t, "n")
+		rs := make([]rune, n)
+		for i := range rs {
+			if rapid.IntRange(0, 3).Draw(t, "any") == 0 {
+				rs[i] = rapid.Rune().Draw(t, "r")
+			} else {
+				rs[i] = rapid.SampledFrom(strAlphabet).Draw(t, "a")
+			}
+		}
+		var sb strings.Builder
+		sb.WriteByte('"')
+		for _, r := range rs {
+			switch r {
+			case '\\':
+				sb.WriteString(`\\`)
+			case '"':
+				sb.WriteString(`\"`)
+			case '\n':
+				sb.WriteString("\\\n")
+			default:
+				sb.WriteRune(r)
+			}
+		}
+		sb.WriteByte('"')
+		lit = sb.String()
+	}
+	pos := rapid.IntRange(0, 3).Draw(t, "pos")
+	if lit[0] == '/' && pos < 2 {
+		pos += 2 // a regex is a value, not a tag
+	}
+	switch pos {
+	case 0:
+		return "block " + lit + " {\n}\n"
+	case 1:
+		return "block a:" + lit + "\n"
+	case 2:
+		return "k = [" + lit + ", " + lit + "]\n"
+	default:
+		return "k = " + lit + "\n"
+	}
+}
